@@ -85,7 +85,7 @@ def run(chk, scratch):
         jobs = [(chk.seed * 100, "tag", "both", 0, 2, 6), (chk.seed * 100, "tag", "both", 3, 1, 6),
                 (chk.seed * 100 + 1, "read_id", "both", 1, 3, 12), (chk.seed * 100 + 2, "file", "linear", 2, 2, 5),
                 (chk.seed * 100 + 3, "file_name", "matrix", 5, 1, 3), (chk.seed * 100 + 4, "read_id", "both", 0, 1, 3),
-                (chk.seed * 100 + 5, "file", "both", 9, 3, 9)]
+                (chk.seed * 100 + 5, "file", "both", 9, 3, 9), (chk.seed * 100 + 6, "file_name", "both", 4, 2, 3)]
 
     def one(job):
         seed, mode, fmt, hs, threads, ng = job
@@ -105,7 +105,10 @@ def run(chk, scratch):
             # of them agree up to the first dot
             default_names = ["LIB.rep1", "LIB.rep2", "OTHER"]
             for fi in range(nf):
-                p = os.path.join(d, ("%s.bam" % default_names[fi]) if hs % 2 == 1 else ("part%d.bam" % fi))
+                # even hash seeds: explicit labels, the files have the SAME base name in different folders (run0/reads.bam, run1/reads.bam, ...)
+                if hs % 2 == 0:
+                    os.makedirs(os.path.join(d, "run%d" % fi), exist_ok=True)
+                p = os.path.join(d, ("%s.bam" % default_names[fi]) if hs % 2 == 1 else os.path.join("run%d" % fi, "reads.bam"))
                 w.write_bam(p, file_idx=fi)
                 bams.append(p)
                 labels.append("lab%d" % fi)
